@@ -118,3 +118,25 @@ Qed.
 
 Lemma invcdf_nan : normal_invcdf_special XNaN = Some XNaN.
 Proof. reflexivity. Qed.
+
+(* the three rational approximations of InvCDF partition the probabilities by the two
+   float64 constants plow, phigh; the regions are non-empty and ordered *)
+Lemma invcdf_regions : forall p : Q,
+  (invcdf_region_of p = RLow <-> p < acklam_plow) /\
+  (invcdf_region_of p = RHigh <-> acklam_phigh < p) /\
+  (invcdf_region_of p = RCentral <-> acklam_plow <= p <= acklam_phigh).
+Proof.
+  intros p. unfold invcdf_region_of.
+  assert (HO : acklam_plow < acklam_phigh) by (vm_compute; reflexivity).
+  destruct (Qltb p acklam_plow) eqn:E1.
+  - apply Qltb_lt in E1. repeat split; try discriminate; auto.
+    + intros H. exfalso. apply (Qlt_irrefl p). eapply Qlt_trans; [exact E1|]. eapply Qlt_trans; eauto.
+    + intros [H _]. exfalso. apply (Qlt_irrefl p). eapply Qlt_le_trans; eauto.
+  - apply Qltb_ge in E1. destruct (Qltb acklam_phigh p) eqn:E2.
+    + apply Qltb_lt in E2. repeat split; try discriminate; auto.
+      * intros H. exfalso. apply (Qlt_irrefl p). eapply Qlt_le_trans; eauto.
+      * intros [_ H]. exfalso. apply (Qlt_irrefl p). eapply Qle_lt_trans; eauto.
+    + apply Qltb_ge in E2. repeat split; try discriminate; auto.
+      * intros H. exfalso. apply (Qlt_irrefl p). eapply Qlt_le_trans; eauto.
+      * intros H. exfalso. apply (Qlt_irrefl p). eapply Qle_lt_trans; eauto.
+Qed.
